@@ -342,7 +342,10 @@ def _r1_r2_kernels(ctx):
         br = closing_branch(k)
         env = env_before(k, br)
         atom = atomizer(k, env)
-        is_four = any(v == ("val", SL(-3)) for v in env.values())
+        def _mentions(e, slot):
+            return any(isinstance(x, ast.expr) and k.value_of(x, env, 0) == slot for x in ast.walk(e))
+        is_four = any(v == ("val", SL(-3)) for v in env.values()) or _mentions(br.test, SL(-3)) or \
+            any(v[0] == "expr" and _mentions(v[1], SL(-3)) for v in env.values())
         cj = conjuncts(br.test)
         if is_four:
             ref = "bc <= ab and bc <= cd"
